@@ -115,9 +115,9 @@ func (bf *buffer) Close() error {
 	bf.pcond.L.Unlock()
 	verifYield("Close.between-broadcasts", bf)
 
-	bf.pcond.L.Lock()
+	bf.ccond.L.Lock()
 	bf.ccond.Broadcast()
-	bf.pcond.L.Unlock()
+	bf.ccond.L.Unlock()
 
 	return nil
 }
